@@ -58,14 +58,17 @@ class Holder(HasTraits):
 
 # (every int has a second raw spelling that the coercing validator maps onto it: collisions of raw forms are frequent)
 # 1.0 / 2.0 / True are EQUAL to members but are other objects: removing operations must never swap them in
-ITEM = st.sampled_from([0, 1, 2, 3, 4, "0", "1", "2", "3", "4", 1, 2, "1", "2", -1, None, {"t": [1]}, 1.0, 2.0, True])
+# ({"fs": [1]} is the member frozenset({1}); remove / discard / `in` also accept the equal SET {1} for it, as set does)
+ITEM = st.sampled_from([0, 1, 2, 3, 4, "0", "1", "2", "3", "4", 1, 2, "1", "2", -1, None, {"t": [1]}, 1.0, 2.0, True, {"fs": [1]},
+                        {"fs": [1]}])
+SETARG = st.sampled_from([{"s": [1]}, {"s": [1]}, {"s": [2]}, {"s": []}])
 BAD = st.sampled_from([{"l": [1]}, {"d": []}])
 ITEMS = st.lists(st.one_of(ITEM, ITEM, ITEM, ITEM, ITEM, ITEM, ITEM, ITEM, BAD), max_size=4)
 ARGS = st.lists(ITEMS, max_size=3)
 OP = st.one_of(
     st.tuples(st.just("add"), st.one_of(ITEM, BAD)),
-    st.tuples(st.just("discard"), st.one_of(ITEM, BAD)),
-    st.tuples(st.just("remove"), st.one_of(ITEM, BAD)),
+    st.tuples(st.just("discard"), st.one_of(ITEM, BAD, SETARG)),
+    st.tuples(st.just("remove"), st.one_of(ITEM, BAD, SETARG)),
     st.tuples(st.just("pop")),
     st.tuples(st.just("clear")),
     st.tuples(st.just("update"), ARGS),
